@@ -4,7 +4,7 @@ from model import (dstr, strip, fact_holds, mentions_field, mentions_call, menti
                    mentions_enum, const_value, walk)
 from rules import (guarded, calls_to, field_writes, who_may_write, loops_over, basename, origins,
                    is_var, is_enum, lastname, reject_if, _resolve_local, reached_only_via)
-from props.scan_common import OUTDIRTY, ts_comparisons, check_prune_recheck
+from props.scan_common import OUTDIRTY, ts_comparisons, check_prune_recheck, check_recheck_is_full
 
 
 def oo(a):
@@ -168,6 +168,7 @@ def run(ctx):
     ctx.check('C03.O1', ok, rod.name, 'RecomputeOutputsDirty:not-all', rod.loc,
               'the re-check is the full output check (RecomputeOutputsDirtyCache::all)')
     check_prune_recheck(ctx, 'C03.O1', prog)
+    check_recheck_is_full(ctx, 'C03.O1', prog)
     ctx.floor('C03.O1', 8)
 
     # ---- G4: ready edges are not planned ------------------------------------------------------
